@@ -123,7 +123,7 @@ theorem postAcquireRead_ok {w : World} {o : Nat} {s : RwSt}
           threads := { w.exec.threads with threads :=
             (w.exec.threads.threads.mapIdx fun i th =>
               if i = w.tid then { th with causality := th.causality.join s.sync.hb }
-              else if th.operation.any (fun op => op.obj == o && op.action == .rwWrite)
+              else if th.operation.any (fun op => op.obj == o && op.action == .rwWrite && op.blocking)
               then th.setBlocked else th) } } },
        true) := by
   unfold World.postAcquireRead
@@ -157,7 +157,8 @@ theorem postAcquireWrite_free {w : World} {o : Nat} {s : RwSt}
           threads := { w.exec.threads with threads :=
             (w.exec.threads.threads.mapIdx fun i th =>
               if i = w.tid then { th with causality := th.causality.join s.sync.hb }
-              else if th.operation.any (fun op => op.obj == o) then th.setBlocked else th) } } },
+              else if th.operation.any (fun op => op.obj == o && op.blocking) then th.setBlocked
+              else th) } } },
        true) := by
   unfold World.postAcquireWrite
   simp only [getRw_of h, hl, bind, Except.bind, pure, Except.pure, Option.isSome_none,
